@@ -466,6 +466,9 @@ func c09Scenarios() []c09Scenario {
 		{name: "sql SELFU(t JOIN u) u:=@n+1|INC u", tables: two, sql: true, counter: "u", heldFrom: 3, bodies: func(d string) []func(*fsx.Proc) {
 			return sqlBodies(d, "VAR @n; SELECT u.n INTO @n FROM t JOIN u ON t.n > -1 FOR UPDATE; UPDATE u SET n = @n + 1;", "UPDATE u SET n = n + 1;")
 		}},
+		{name: "sql SELFU(t UNION ALL u),INC u|INC u", tables: two, sql: true, counter: "u", heldFrom: 2, bodies: func(d string) []func(*fsx.Proc) {
+			return sqlBodies(d, "SELECT n FROM t WHERE n < 0 UNION ALL SELECT n FROM u FOR UPDATE; UPDATE u SET n = n + 1;", "UPDATE u SET n = n + 1;")
+		}},
 		{name: "sql SELFU(derived(t) JOIN t) t:=@n+1|INC", tables: one, sql: true, heldFrom: 3, noCounter: true, bodies: func(d string) []func(*fsx.Proc) {
 			return sqlBodies(d, "VAR @n; SELECT t.n INTO @n FROM (SELECT MAX(n) AS m FROM t) AS mx JOIN t ON t.n = mx.m FOR UPDATE; UPDATE t SET n = @n + 1;", "UPDATE t SET n = n + 1;")
 		}},
